@@ -50,6 +50,11 @@ def gen_ops(rng, n_ops):
 				labels.remove(l)
 		else:
 			new = rng.sample(range(100, 160), len(labels))
+			style = rng.random()
+			if style < .2:
+				new = list(labels)                                   # the identity mapping: a legal no-op
+			elif style < .4 and len(labels) >= 2:
+				new = labels[1:] + labels[:1]                        # a permutation of the existing indices
 			m = [[l, new[i]] for i, l in enumerate(labels)]
 			ops.append({'op': 'reindex', 'map': m})
 			labels = [new[i] for i in range(len(labels))]
